@@ -58,49 +58,6 @@ theorem c06_folding_is_presentation (isFork : Nat → Bool) (g : G) (m : List (N
   have := fold_eq_nomerge isFork m.length m (Nat.le_refl _) g h
   exact ⟨this.2, this.1⟩
 
-/-- well-formedness of one task's stream that makes `PairsOK` hold for the merged stream -/
-def TaskOK : List Rec → Prop
-  | r :: x :: rest =>
-    (r.exit = false → x.exit = true → x.depth = r.depth → x.addr = r.addr ∧ r.time ≤ x.time) ∧ TaskOK (x :: rest)
-  | _ => True
-
-theorem taskOK_tail {r : Rec} {t : List Rec} (h : TaskOK (r :: t)) : TaskOK t := by
-  cases t with
-  | nil => simp [TaskOK]
-  | cons x t => exact h.2
-
-theorem pairsOK_mergeFuel (n : Nat) : ∀ ts : List (List Rec), (∀ j, TaskOK (nth ts j)) → PairsOK (mergeFuel n ts) := by
-  induction n with
-  | zero => intro ts _; simp [mergeFuel, PairsOK]
-  | succ n ih =>
-    intro ts hok
-    rcases mergeFuel_succ n ts with ⟨he, _⟩ | ⟨i, r, rest, hi, _, he⟩
-    · rw [he]; simp [PairsOK]
-    · have hok' : ∀ j, TaskOK (nth (ts.set i rest) j) := by
-        intro j
-        rw [nth_set]
-        split
-        · have := hok i; rw [hi] at this; exact taskOK_tail this
-        · exact hok j
-      have ih' := ih (ts.set i rest) hok'
-      rw [he]
-      cases n with
-      | zero => simp [mergeFuel, PairsOK]
-      | succ n =>
-        rcases mergeFuel_succ n (ts.set i rest) with ⟨he2, _⟩ | ⟨j, x, rest2, hj, _, he2⟩
-        · rw [he2]; simp [PairsOK]
-        · rw [he2] at ih' ⊢
-          refine ⟨?_, ih'⟩
-          intro hr hf
-          have hf' : (j = i ∧ x.depth = r.depth) ∧ x.exit = true := by
-            simpa [foldsWith, Bool.and_eq_true] using hf
-          obtain ⟨⟨rfl, hd⟩, hx⟩ := hf'
-          rw [nth_set] at hj
-          simp only [true_and, lt_length_of_nth hi, if_true] at hj
-          have := hok j
-          rw [hi, hj] at this
-          exact this.1 hr hx hd
-
 /-- for the merged stream of tasks that are each well-formed in this sense, folding is presentation -/
 theorem c06_folding_is_presentation_merged (isFork : Nat → Bool) (g : G) (ts : List (List Rec))
     (h : ∀ t ∈ ts, TaskOK t) :
@@ -112,6 +69,11 @@ theorem c06_folding_is_presentation_merged (isFork : Nat → Bool) (g : G) (ts :
   by_cases hj : j < ts.length
   · exact h _ (nth_mem hj)
   · rw [nth_of_length_le (Nat.le_of_not_lt hj)]; simp [TaskOK]
+
+/-- the hypothesis of the previous theorem holds for every task whose records are a forest of
+    completed calls, none of which returns before it was entered -/
+theorem c06_tree_streams_wellformed (d : Nat) (cs : Calls) (h : cs.timed) : TaskOK (recsCalls d cs) :=
+  taskOK_recsCalls d cs h
 
 -- non-vacuity: a leaf is folded, and the hypothesis holds for it
 example : (replay true (fun _ => false) (g0 [none])
@@ -144,6 +106,14 @@ theorem c06_nested_task_lines (isFork : Nat → Bool) (parents : List (Option Na
   have h00 : inh = 0 := h0 hroot
   rw [h.1, hp, h00]
   exact runNM_root_calls isFork i _ cs
+
+/-- the default (folding) output of a nested task: after unfolding it is `shownCalls` too -/
+theorem c06_nested_task_lines_default (isFork : Nat → Bool) (parents : List (Option Nat)) (ts : List (List Rec))
+    (i : Nat) (cs : Calls) (hroot : parents.getD i none = none) (hi : ts.getD i [] = recsCalls 0 cs)
+    (hok : ∀ t ∈ ts, TaskOK t) :
+    linesOf i (unfold (replay true isFork (g0 parents) (merge ts)).2) = shownCalls i 0 0 cs := by
+  rw [(c06_folding_is_presentation_merged isFork _ ts hok).1]
+  exact c06_nested_task_lines isFork parents ts i cs hroot hi
 
 theorem c06_indent_is_depth (isFork : Nat → Bool) (parents : List (Option Nat)) (ts : List (List Rec))
     (i : Nat) (cs : Calls) (hroot : parents.getD i none = none) (hi : ts.getD i [] = recsCalls 0 cs) :
